@@ -22,7 +22,7 @@ CHECKS["C09"] = dict(
     category="proof",
     text="Lean 4 theorem C09_compat_sound over the 36-entry table of _is_granularity_compatible regenerated from /repo on every run: every accepted (Q,P) satisfies "
          "trunc Q (trunc P t) = trunc Q t for EVERY integer timestamp (omega-based proleptic Gregorian calendar, no 28-year window); exact truth table with witnesses "
-         "for the 18 unsound pairs; unknown names only identity. Calendar model validated against DuckDB DATE_TRUNC; accepted pairs executed routed vs unrouted.",
+         "for the 18 unsound pairs; unknown names only identity. Calendar model validated against DuckDB DATE_TRUNC; accepted pairs, and every rollup granularity x ordered pair of requested granularities (180 queries), compiled with pre-aggregations on and executed routed vs unrouted on boundary-straddling rows.",
     design_ref="DESIGN.md §4 C09",
     note="Trusted: Lean kernel + standard axioms; translator calls the real function on its complete finite domain; the Lean calendar is tied to DuckDB DATE_TRUNC by differential testing on boundary/random timestamps (not proved about DuckDB).",
     technique="Lean 4 proof over translator-regenerated table (decide + omega calendar lemmas) + DuckDB correspondence",
@@ -46,7 +46,7 @@ CHECKS["C07"] = dict(
     category="proof",
     text="Lean 4 theorems for every integer timestamp (omega calendar): DATE_TRUNC(g,t) is idempotent, <= t < next; weeks start Monday midnight; month/quarter/year start on day 1 of a month aligned to 1/3/12; "
          "a requested granularity evaluates to trunc g of the dimension's value (several granularities are independent keys of the flat query); default time dimension added iff a metric of the model is requested and no time dimension is; "
-         "invalid granularity and granularity on a non-time field rejected (after fix cff5de5); additive roll-up: re-aggregating per-P-bucket SUMs/COUNTs by the Q bucket equals grouping by Q directly for every refining pair and every table. Tie: trunc vs DuckDB; validate_query/_apply_default_time_dimensions vs Lean on generated reference lists; C01 arms on time-heavy cases; additive roll-up relation checked on real rows for all refining pairs.",
+         "invalid granularity and granularity on a non-time field rejected (after fix cff5de5); additive roll-up: re-aggregating per-P-bucket SUMs/COUNTs by the Q bucket equals grouping by Q directly for every refining pair and every table. Tie: trunc vs DuckDB; validate_query/_apply_default_time_dimensions vs Lean on generated reference lists (a malformed and a mostly-valid stream with bare and granular time dimensions) with the property's rule also evaluated on the real code; C01 arms on time-heavy cases; additive roll-up relation checked on real rows for all refining pairs.",
     design_ref="DESIGN.md §4 C07",
     note="The additive roll-up relation is a theorem for SUM and COUNT over every refining pair (C07_rollup_additive_sum/_count, from the C09 refinement and the partition lemmas of Proofs/Reagg) at the level of keyed bags; the printed SQL is tied to that form by the real-row roll-up check of the run. Trusted base as for C01/C09.",
     technique="Lean 4 proof (omega calendar, model of validate_query and default-time-dimension rule) + correspondence + roll-up oracle on DuckDB",
@@ -78,10 +78,11 @@ CHECKS["C08"] = dict(
     text="Lean 4: (1) matcher soundness on the model of PreAggregationMatcher/_try_use_preaggregation (Layer/Routing.lean): whenever `route` picks a rollup the query is grouped, all non-time dimensions and filter columns are rollup columns, "
          "every measure is listed, unfiltered and decomposable, and EVERY requested granularity belongs to the rollup's time dimension and is accepted by the regenerated compatibility table (C08_route_sound, C08_canSatisfy_sound, C08_derivable_sound, C08_time_key_factors via C09); "
          "(2) re-aggregation is exact for every table, bucket key, outer key factoring through it and bucket-key filter: partition permutation, commutative-monoid folds, two-level = one-level grouping (Proofs/Reagg.lean; C08_sum/count/min/max_from_rollup), AVG-of-bucket-averages refuted (F9). "
+         "(3) end to end on the relational evaluator (Proofs/RoutedGlue.lean): for a rollup with a time key and stored dimensions (C08_matQuery_has_shape), a requested granularity accepted by the regenerated table or the rollup's own, and any subset of the stored dimensions, the rows the evaluator returns for the routed statement over the rows it returns for the materialization are a permutation of the base-table statement's rows, for EVERY table (C08_routed_rows_are_base_rows_sum_partial/_count_partial; column lookups proved from alias distinctness). "
          "Tie: generate_materialization_sql vs matQuery, routing decision vs route, routed SQL vs routedQuery (structural) and rollup/routed rows vs the Lean evaluators (behavioural). Search: the layer's own rollups, routed vs unrouted compile() on the same DuckDB database.",
     design_ref="DESIGN.md §4 C08",
-    note="Partial: the step from the printed routed SQL to the abstract two-level form (column lookups in rollup rows) is validated by correspondence, not proved; MIN/MAX theorem for numeric measures. Nine genuine defects fixed, three recorded (F9 AVG, F31 time filter alignment, F33 time dimension as plain dimension).",
-    technique="Lean 4 proof (matcher soundness, re-aggregation algebra over all partitions) + structural/behavioural correspondence + routed-vs-unrouted oracle on DuckDB",
+    note="Partial: the end-to-end theorem covers one SUM/COUNT measure per statement without a WHERE clause (filters: matcher theorems + correspondence); the routed statement's key list is tied to routedQuery by decide on the example and by the structural correspondence; MIN/MAX theorem for numeric measures. Nine genuine defects fixed, three recorded (F9 AVG, F31 time filter alignment, F33 time dimension as plain dimension).",
+    technique="Lean 4 proof (matcher soundness, re-aggregation algebra over all partitions, glue through the relational evaluator) + structural/behavioural correspondence + routed-vs-unrouted oracle on DuckDB",
 )
 
 CHECKS["C17"] = dict(
@@ -100,20 +101,20 @@ CHECKS["C15"] = dict(
     category="proof",
     text="Lean 4 theorems (Properties/C15.lean): every class of sink that consumes a Python set — sorted with a total order (unique sorted permutation), commutative-monoid fold, existence test, singleton — is insensitive to the enumeration order, "
          "and so is any tuple of such sinks; obligations C15_no_ordered_site and C15_no_mutation_site over Gen/OrderSites.lean, which is REGENERATED on every run by an AST scan of every set-typed iteration (fail closed) and a taint analysis of writes to objects reachable from the registered graph, "
-         "in the modules reachable from compile()/explain(). Search/validation: the same layers and queries compiled in child processes under distinct PYTHONHASHSEED values (byte comparison), in reversed order on one shared layer after explain() and repeated calls, and model_dump() snapshots before/after.",
+         "in the modules reachable from compile()/explain(); C15_history_independent: a layer whose only state besides the definitions is a cache that, when filled, is a function of the definitions compiles any query after ANY history of other compilations to what a fresh layer gives, with the code obligations C15_persistent_state (methods of SemanticGraph/SemanticLayer write no instance state outside the registration API other than the lazy adjacency) and C15_memo_sites_constant over the regenerated stateWrites/memoSites tables. Search/validation: the same layers and queries compiled in child processes under distinct PYTHONHASHSEED values (byte comparison), in reversed order on one shared layer after explain() and repeated calls, after random histories (3-10 compiles with repeats) on shared layers incl. diamond join graphs reached through metrics, dimensions or only a filter, and model_dump() snapshots before/after.",
     design_ref="DESIGN.md §4 C15",
     note="The site classification and the taint analysis are syntactic (trusted translator; three reviewed sites with re-checked reasons); time/randomness/environment reads were searched for and not found. Three genuine defects fixed (was F13).",
-    technique="Lean 4 proof (order-insensitivity of sink classes + decide over the regenerated site table) + translator (AST scan, taint analysis) + multi-process hash-seed differential",
+    technique="Lean 4 proof (order-insensitivity of sink classes, history independence of a definitions+cache state machine, decide over the regenerated site/state tables) + translator (AST scan, taint analysis, instance-state inventory) + multi-process hash-seed and history differential",
 )
 
 CHECKS["C20"] = dict(
     category="proof",
     text="Lean 4 theorems (Properties/C20.lean): every kind of ill-formed reference (unknown model, unknown metric/dimension, unknown graph-level metric, missing model prefix, non-whitelisted granularity, granularity on a non-time dimension) yields a non-empty error list in the model of validate_query, "
          "an accepted dimension reference has exactly the shape model.dimension[__whitelisted granularity on a time dimension] (C20_dim_accepted); whenever validation passes for a single-model query the generator model is total — no KeyError/ValueError path is reachable (C20_accepted_query_compiles_partial); "
-         "the model behind a <model>_cte qualifier is recovered for EVERY model name, also names containing _cte (C20_cte_alias_recovered). Tie: validate_query vs validateRefs on generated ill-formed references; _model_from_table vs modelFromTable. "
-         "Search: accepted hostile-name models (SQL keywords, _cte/_raw substrings, mixed case, names of physical columns and of the generator's own aliases), each single-field query compiled AND executed on DuckDB; ill-formed references must raise QueryValidationError.",
+         "the model behind a <model>_cte qualifier is recovered for EVERY model name, also names containing _cte (C20_cte_alias_recovered); a model's formula metrics pass the registration check exactly when their dependency graph has no cycle of any length (C20_accepted_has_no_cycle, C20_acyclic_is_accepted — pigeonhole on duplicate-free paths) and then the generator's recursive inlining of each finishes (C20_accepted_expansion_terminates). Tie: _find_model_metric_cycle vs Cyc.acyclic on random dependency graphs; validate_query vs validateRefs on generated ill-formed references; _model_from_table vs modelFromTable. "
+         "Search: accepted hostile-name models (SQL keywords, _cte/_raw substrings, mixed case, names of physical columns and of the generator's own aliases), with further derived/ratio metrics over random dependency graphs at model and graph level, each single-field query compiled (address space bounded) AND executed on DuckDB; ill-formed references must raise QueryValidationError.",
     design_ref="DESIGN.md §4 C20",
-    note="Partial: acceptance theorem for one model without segments/default time dimension; join-path rejection is C10's theorem. Two genuine defects fixed (reserved-word aliases, _cte in model names), one recorded (F35).",
+    note="Partial: acceptance theorem for one model without segments/default time dimension; join-path rejection is C10's theorem. Three genuine defects fixed (reserved-word aliases, _cte in model names, circular formula metrics accepted), one recorded (F35). Forward references to never-registered graph-level metrics are treated as dangling references (rejected at query time), not as accepted definitions.",
     technique="Lean 4 proof (rejection completeness, acceptance => generator totality, qualifier recovery) + correspondence + exhaustive single-field execution on hostile names",
 )
 
@@ -130,19 +131,19 @@ CHECKS["C05"] = dict(
 
 CHECKS["C12"] = dict(
     category="proof",
-    text="The property's domain is a finite matrix; Gen/AdapterMatrix.lean is REGENERATED on every run by evaluation: for each of 14 exporters x (52 measure cells: 7 aggregation types x filtered/plain x display format x column/product expression; 11 structure cells: keys, qualified table, sql model, relationship types, time granularity, dimension types, segment) the harness exports a layer, parses it back with the same adapter, "
+    text="The property's domain is a finite matrix; Gen/AdapterMatrix.lean is REGENERATED on every run by evaluation: for each of 15 exporters x (56 measure cells: 7 aggregation types x filtered/plain x display format x column/product expression, COUNT(*) and COUNT(<nullable column>); 16 structure cells: keys, qualified table, sql model, relationship types, time granularity, dimension types, segment, and relationship x related-key pairs compared on the join the relationship resolves to) the harness exports a layer, parses it back with the same adapter, "
          "executes the surviving metric grouped by a dimension on DuckDB against both graphs and classifies the cell (same / absent / unusable / rejected / changed) and whether a second round trip is a fixed point. Lean 4 obligations (decide over the whole table): no cell outside the recorded findings is `changed` (C12_no_silent_change), "
-         "every such cell is a fixed point (C12_second_roundtrip_fixed), the matrix is complete (14 x 63), the recorded cells still fail (not stale).",
+         "every such cell is a fixed point (C12_second_roundtrip_fixed), the matrix is complete (15 x 72), the recorded cells still fail (not stale).",
     design_ref="DESIGN.md §4 C12",
-    note="Translator-by-evaluation: the theorem is about the observed table, so the trusted base includes the cell evaluator (export/parse/execute). `lost` (an attribute falls back to its default where the format may have no syntax) is allowed and counted. 193 cells in 12 adapters violate the property today and are recorded as F36-* (not repaired: per-adapter format work).",
+    note="Translator-by-evaluation: the theorem is about the observed table, so the trusted base includes the cell evaluator (export/parse/execute). `lost` (an attribute falls back to its default where the format may have no syntax) is allowed and counted. 266 cells in 13 adapters violate the property today and are recorded as F36-* (not repaired: per-adapter format work).",
     technique="translator by evaluation over the finite exporter x feature matrix + Lean 4 decide over the regenerated table + execution of both graphs on DuckDB",
 )
 
 CHECKS["C14"] = dict(
     category="proof",
     text="Partial by nature: no engine but DuckDB exists in the sandbox. Lean 4 theorems (Properties/C14.lean), each by decide over tables REGENERATED from the current sources by calling the real functions on their finite domains (Gen/DialectTable.lean: _date_trunc 7 dialects x 6 granularities x 3 column forms, _build_interval 7 x 5, build_symmetric_aggregate_sql 7): "
-         "every truncation fragment has the argument order its dialect requires for exactly the requested unit and expression; every INTERVAL literal has the dialect's form; the symmetric-aggregate key hash*multiplier+value fits its numeric type in DuckDB/Postgres/BigQuery/Snowflake and provably overflows in ClickHouse/Databricks/Spark (F38). "
-         "Tie: relative-date filters of compile(dialect=d) contain RelativeDateRange.parse(phrase, d). Search: compile(dialect=d) of generated single-model, join and window queries and of 15 relative-date phrases x 5 operators must parse under sqlglot(read=d) and, translated to DuckDB, return the DuckDB-dialect rows; a control translation separates transpiler limitations.",
+         "every truncation fragment has the argument order its dialect requires for exactly the requested unit and expression; every INTERVAL literal has the dialect's form; every emitted ORDER BY item (7 dialects x dimension/metric key x ASC/DESC), combined with the engine's documented default NULL placement, sorts NULL keys first ascending and last descending, so ordered and LIMITed results agree across dialects (C14_null_order_uniform); the symmetric-aggregate key hash*multiplier+value fits its numeric type in DuckDB/Postgres/BigQuery/Snowflake and provably overflows in ClickHouse/Databricks/Spark (F38). "
+         "Tie: relative-date filters of compile(dialect=d) contain RelativeDateRange.parse(phrase, d). Search: compile(dialect=d) of generated single-model, join and window queries and of 15 relative-date phrases x 5 operators must parse under sqlglot(read=d) and, translated to DuckDB, return the DuckDB-dialect rows (ordered queries: the same slice of the same ordering of the unsliced result, NULL sort keys included); a control translation separates transpiler limitations.",
     design_ref="DESIGN.md §4 C14",
     note="The dialect syntax / numeric-range specifications are written from the engines' documentation (trusted). Whole-statement validity is judged by sqlglot's parsers, equivalence by execution on DuckDB after translation, with dialect hash functions mapped to macros. One finding proved (F38).",
     technique="Lean 4 decide over regenerated dialect-fragment tables against an explicit dialect specification + parse/transpile/execute differential with control arm",
@@ -182,7 +183,7 @@ CHECKS["C13"] = dict(
     category="proof",
     text="Lean 4 theorems over the detection cascade regenerated from loaders.py (AST translator preserving and/or precedence): for EVERY file content carrying a format's structural-key signature the cascade selects that format "
          "(one theorem per YAML format, suffix-only formats by decide); detection is file-local; merge of parsed files is order-independent for distinct model names. "
-         "Tie: original if/elif chain executed on synthetic contents vs the Lean cascade; every exporter's real output checked against its signature; load_from_directory on directories of 1-8 exporter outputs (nested, disjoint names) and a deterministic per-exporter battery vs adapter.parse per file.",
+         "Tie: original if/elif chain executed on synthetic contents vs the Lean cascade; every exporter's real output checked against its signature; the translator refuses a loop body that does not reset the adapter per file (file-locality of the model); load_from_directory on directories of 1-8 exporter outputs (nested, disjoint names) plus files no branch recognises, in the file system's and 3 permuted enumeration orders (equal results, no model that no file's own adapter extracts), and a deterministic per-exporter battery vs adapter.parse per file.",
     design_ref="DESIGN.md §4 C13",
     note="The signatures are validated on generated exporter output, not proved about the exporters. Known findings: substring probes inside user text (F12), SML short-circuit (F12), metric-less models in Superset/Hex/Omni/BSL (F24). Superset mis-detection fixed in /repo (4b0b0f5). Python-file execution path not modelled.",
     technique="Lean 4 proof (simp over translator-regenerated decision list) + chain-vs-model correspondence + directory loading oracle",
